@@ -1397,13 +1397,24 @@ def instantiate_foralls(hyps, goal, limit=8):
     return out
 
 
-def _z3_check(forms, goal, timeout_ms):
-    s = z3.Solver()
-    s.set("timeout", int(timeout_ms))
-    for a in forms:
-        s.add(a)
-    s.add(z3.Not(goal))
-    return s.check(), s
+def _z3_check(forms, goal, timeout_ms, seeds=(0,)):
+    """z3 with a small portfolio of random seeds: the time z3 needs on these mixed
+    quantifier / nonlinear goals varies a lot with variable naming and seed, so a goal that is
+    easy for one seed must not be lost because another one wanders off"""
+    r, s = z3.unknown, None
+    for sd in seeds:
+        s = z3.Solver()
+        s.set("timeout", int(timeout_ms))
+        if sd:
+            s.set("random_seed", sd)
+            s.set("smt.random_seed", sd) if False else None
+        for a in forms:
+            s.add(a)
+        s.add(z3.Not(goal))
+        r = s.check()
+        if r != z3.unknown:
+            break
+    return r, s
 
 
 def prove(hyps, goal, timeout_ms=20000, extra_axioms=(), nonneg=True, use_cvc5=None, scale=1):
@@ -1421,8 +1432,8 @@ def prove(hyps, goal, timeout_ms=20000, extra_axioms=(), nonneg=True, use_cvc5=N
         sax, lem_used = sum_axioms([goal] + [h for h in hyps if not _has_quant(h, qc0)][-30:], base)
     allf = base + sax
     fax = fn_axioms(allf + [goal])
-    # stage 1: plain, short
-    r, s = _z3_check(allf + fax, goal, min(3000 * scale, timeout_ms))
+    # stage 1: plain, short, three seeds
+    r, s = _z3_check(allf + fax, goal, min(3000 * scale, timeout_ms), seeds=(0, 11, 97))
     if r == z3.unsat:
         return "proved", "z3", time.time() - t0, None, lem_used
     model = s.model() if r == z3.sat else None
@@ -1440,9 +1451,11 @@ def prove(hyps, goal, timeout_ms=20000, extra_axioms=(), nonneg=True, use_cvc5=N
         return "refuted", "z3", time.time() - t0, model, lem_used
     # stage 3: quantifier-free purified attempt (nonlinear real arithmetic), with the integer
     # quantifiers of the hypotheses instantiated at the indices the goal mentions
-    inst = instantiate_foralls(allf, goal)
-    if prove_qf(allf + inst + fax + fn_axioms(inst), goal, min(10000 * scale, timeout_ms)):
+    if prove_qf(allf + fax, goal, min(10000 * scale, timeout_ms)):
         return "proved", "z3-qf", time.time() - t0, None, lem_used
+    inst = instantiate_foralls(allf, goal)
+    if inst and prove_qf(allf + inst + fax + fn_axioms(inst), goal, min(10000 * scale, timeout_ms)):
+        return "proved", "z3-qf-inst", time.time() - t0, None, lem_used
     # stage 4: plain, long
     r, s = _z3_check(allf + fax, goal, timeout_ms)
     if r == z3.unsat:
